@@ -189,6 +189,11 @@ def run_exec(pid, tier, seed, emphasis, scns=("exec",), pre=None):
                     jobs.append(dict(exe=exe, scn=scn, seed0=seed * 1000000 + emphasis * 100000 + 1 + off,
                                      count=per, opts=opts,
                                      env={"ABTV_BUDGET": "400000"}))
+        if scn == "exec":
+            # one ULT in pools that several streams serve waits for slow tasklets and ULTs with a single join_many / free_many
+            for off in range(0, 2 * n, per):
+                jobs.append(dict(exe=exe, scn=scn, seed0=seed * 1000000 + emphasis * 100000 + 50001 + off, count=per,
+                                 opts=("nes=2", "cfg=4", "jm=1"), env={"ABTV_BUDGET": "400000"}))
         if not quick:
             for cfg in range(6):
                 for nes in ((0,) if scn in ("switch", "replace") else (1, 2)):   # (observations are snapshots only when serialized)
